@@ -245,21 +245,22 @@ func genSort(g *hx.Gen) {
 	g.Exhaustive(fmt.Sprintf("ints.Sort on every array over {0,1,2} of every length 0..%d", full))
 
 	// ---- structured random inputs
+	// The extracted model works on lists (every read and write is linear in the index), so the
+	// model driver costs about 0.8 us * n^2 per case: the sizes are budgeted by the sum of n^2
+	// (quick about 2e7, thorough about 6e8); the few large inputs are added explicitly below.
 	sizes := func() int {
 		switch r.Intn(10) {
 		case 0, 1, 2:
 			return r.Range(0, 14)
 		case 3, 4, 5:
 			return r.Range(13, 60)
-		case 6, 7:
+		case 6, 7, 8:
 			return r.Range(41, 300)
-		case 8:
-			return r.Range(300, 1200)
 		default:
-			return r.Range(1200, g.Pick(2000, 5000))
+			return r.Range(300, g.Pick(600, 1200))
 		}
 	}
-	count := g.Pick(500, 6000)
+	count := g.Pick(400, 3000)
 	for i := 0; i < count; i++ {
 		n := sizes()
 		a := make([]int, n)
@@ -318,8 +319,12 @@ func genSort(g *hx.Gen) {
 		}
 		g.Emit(sortCase(a))
 	}
-	// the largest sizes once each in every tier
-	for _, n := range []int{5000} {
+	// the largest sizes: 1000 in the quick tier, up to 5000 in the thorough tier
+	large := []int{1000}
+	if g.Thorough() {
+		large = []int{1500, 2000, 2500, 3000, 4000, 5000}
+	}
+	for _, n := range large {
 		a := make([]int, n)
 		for j := range a {
 			a[j] = int(r.U64() >> 1)
@@ -327,6 +332,11 @@ func genSort(g *hx.Gen) {
 		g.Emit(sortCase(a))
 		for j := range a {
 			a[j] = n - j
+		}
+		g.Emit(sortCase(a))
+		k := r.Range(2, 9)
+		for j := range a {
+			a[j] = r.Intn(k)
 		}
 		g.Emit(sortCase(a))
 	}
@@ -337,9 +347,8 @@ func genSort(g *hx.Gen) {
 		for n := 13; n <= 400; n++ {
 			ks = append(ks, n)
 		}
-		ks = append(ks, 2000, 3000)
+		ks = append(ks, 2000, 3000, 5000)
 	}
-	ks = append(ks, 5000)
 	reached := 0
 	for _, n := range ks {
 		a, heap := killer(n)
